@@ -381,6 +381,7 @@ func (s *ReverseInnerSearcher) Find(haystack []byte) *Match {
 	// Therefore, we can return immediately on first confirmed match!
 
 	searchStart := 0
+	from := 0          // where the NFA engine starts: the confirmed match start, if any
 	minPreStart := 0   // Track minimum position for forward scan quadratic detection
 	minMatchStart := 0 // Anti-quadratic guard for reverse scan
 
@@ -441,8 +442,7 @@ func (s *ReverseInnerSearcher) Find(haystack []byte) *Match {
 		// Find the end of the match (forward DFA finds longest match = greedy)
 		// Anchored at the candidate: the suffix part must match where the inner
 		// literal was found, not anywhere later in the haystack.
-		matchEnd := s.forwardDFA.SearchAtAnchored(fwdCache, haystack, pos)
-		if matchEnd < 0 {
+		if s.forwardDFA.SearchAtAnchored(fwdCache, haystack, pos) < 0 {
 			// Suffix doesn't match - update minPreStart and try next candidate
 			minPreStart = pos + s.innerLen
 			searchStart = pos + 1
@@ -452,13 +452,17 @@ func (s *ReverseInnerSearcher) Find(haystack []byte) *Match {
 			continue
 		}
 
-		// EARLY RETURN: First confirmed match is leftmost by construction!
-		// Forward DFA already finds the longest match from this start position.
-		return NewMatch(matchStart, matchEnd, haystack)
+		// The first confirmed candidate fixes the match start. The end does not
+		// follow from it: a greedy prefix can run over later occurrences of the inner
+		// literal (.+b\d* on ". .b.Oaxb" ends at 9, not at 4), so the span is taken
+		// from the NFA engine started at the match start, below.
+		from = matchStart
+		break
 	}
 
-	// Fallback: use PikeVM if no DFA match found
-	start, end, found := s.pikevm.Search(haystack)
+	// The NFA engine answers: from the confirmed match start, or for the whole
+	// haystack if no candidate was confirmed.
+	start, end, found := s.pikevm.SearchAt(haystack, from)
 	if found {
 		return NewMatch(start, end, haystack)
 	}
@@ -585,6 +589,7 @@ func (s *ReverseInnerSearcher) findIndicesAtImpl(haystack []byte, at int, fwdCac
 
 	// Search for inner literal starting from 'at'
 	searchStart := at
+	from := at          // where the NFA engine starts: the confirmed match start, if any
 	minMatchStart := at // Anti-quadratic guard for reverse scans
 	for {
 		// Find next inner literal candidate
@@ -617,8 +622,7 @@ func (s *ReverseInnerSearcher) findIndicesAtImpl(haystack []byte, at int, fwdCac
 		// Step 2: Forward search on SUFFIX portion
 		// Anchored at the candidate: the suffix part must match where the inner
 		// literal was found, not anywhere later in the haystack.
-		matchEnd := s.forwardDFA.SearchAtAnchored(fwdCache, haystack, pos)
-		if matchEnd < 0 {
+		if s.forwardDFA.SearchAtAnchored(fwdCache, haystack, pos) < 0 {
 			// Suffix doesn't match - try next candidate
 			searchStart = pos + 1
 			if searchStart >= len(haystack) {
@@ -627,10 +631,13 @@ func (s *ReverseInnerSearcher) findIndicesAtImpl(haystack []byte, at int, fwdCac
 			continue
 		}
 
-		// Found valid match
-		return matchStart, matchEnd, true
+		// Confirmed: the match starts at matchStart; its end comes from the NFA
+		// engine (a greedy prefix can run over later inner literals).
+		from = matchStart
+		break
 	}
 
-	// Fallback to PikeVM
-	return s.pikevm.SearchAt(haystack, at)
+	// The NFA engine answers: from the confirmed match start, or from 'at' if no
+	// candidate was confirmed.
+	return s.pikevm.SearchAt(haystack, from)
 }
